@@ -277,7 +277,11 @@ pub fn rand(min: u64, max: u64, unused3: u64, unused4: u64, unused5: u64) -> u64
     });
 
     if min < max {
-        n = n % (max + 1 - min) + min;
+        let span = max - min;
+        // A span covering every u64 needs no reduction (and span + 1 would overflow).
+        if span < u64::MAX {
+            n = n % (span + 1) + min;
+        }
     };
     n
 }
